@@ -1162,3 +1162,134 @@ def rule_placeholder_tests(rep: Report, repo: Repo):
                     rep.ok(R, inst, "tests the placeholders (or a coefficient converted back to NumberOperator objects)", repo.loc(MOD, c))
     rep.floor(R, "methods of NumberOrderedForm inspected", n_methods, 20)
     rep.ok(R, f"{CLS}: dependence tests on stored coefficients", f"{n_tests} tests in {n_methods} methods", repo.rel(MOD))
+
+
+# ---------------------------------------------------------------------------
+# (viii) _expand_operators places every power by the identity of its operator
+# ---------------------------------------------------------------------------
+
+
+def rule_expand_by_identity(rep: Report, repo: Repo):
+    """`_expand_operators(new_operators)` re-expresses a form over a longer, sorted operator list (masks and energies are merged with
+    the Hamiltonian's operators this way).  A mode that is foreign to the form may sort BETWEEN two of its own modes, so the position
+    of each power in the new tuple has to come from a per-operator lookup (`self.operators.index(op)` for op in new_operators, or the
+    converse).  A return path that copies the raw power tuple contiguously (`(*front, *powers, *back)`, `front + powers + back`) is
+    right only when the own modes are adjacent in new_operators -- a fact about new_operators, which a guard that does not read
+    new_operators cannot establish.  Decided per return statement from its def-use closure; other shapes are reported as undecided."""
+    R = "E10.expand"
+    f = repo.find(f"{CLS}::_expand_operators", R)
+    if len(f.args.args) < 2:
+        raise AnalysisError(R, "_expand_operators takes no operator list")
+    NEW = f.args.args[1].arg
+    parent = {}
+    for n in ast.walk(f):
+        for c in ast.iter_child_nodes(n):
+            parent[c] = n
+    names = lambda e: {x.id for x in ast.walk(e) if isinstance(x, ast.Name)}
+    # def-use edges: name -> expressions it is computed from
+    deps: dict[str, list[ast.AST]] = {}
+    for n in own_nodes(f):
+        if isinstance(n, (ast.Assign, ast.AnnAssign, ast.AugAssign)) and getattr(n, "value", None) is not None:
+            tgts = n.targets if isinstance(n, ast.Assign) else [n.target]
+            for t in tgts:
+                for x in ast.walk(t):
+                    if isinstance(x, ast.Name):
+                        deps.setdefault(x.id, []).append(n.value)
+                    if isinstance(x, ast.Subscript):
+                        for y in names(x.value):
+                            deps.setdefault(y, []).append(x.slice)
+        elif isinstance(n, ast.For):
+            for x in names(n.target):
+                deps.setdefault(x, []).append(n.iter)
+        elif isinstance(n, ast.Expr) and isinstance(n.value, ast.Call) and isinstance(n.value.func, ast.Attribute):
+            for y in names(n.value.func.value):
+                deps.setdefault(y, []).extend(n.value.args)
+    tainted = set()
+    changed = True
+    while changed:
+        changed = False
+        for k, es in deps.items():
+            if k not in tainted and any(NEW in names(e) or names(e) & tainted for e in es):
+                tainted.add(k)
+                changed = True
+
+    def binders(exprs):
+        """loop variables -> norm of the iterated expression, for comprehensions inside `exprs` and for-loops of the function"""
+        out = {}
+        gens = [g for e in exprs for x in ast.walk(e) for g in getattr(x, "generators", [])]
+        loops = [(n.target, n.iter) for n in own_nodes(f) if isinstance(n, ast.For)] + [(g.target, g.iter) for g in gens]
+        for tgt, it in loops:
+            src = it
+            if isinstance(src, ast.Call) and call_name(src) == "enumerate" and src.args:
+                src = src.args[0]
+            for x in names(tgt):
+                out[x] = norm(src)
+        return out
+
+    returns = [n for n in own_nodes(f) if isinstance(n, ast.Return) and n.value is not None]
+    if not returns:
+        raise AnalysisError(R, "_expand_operators has no return statement")
+    OWN = ("self.operators", "self.args[0]")
+    TERMS = ("self.args[1]", "self.terms", "self.args[1].items()", "self.terms.items()")
+    for r in returns:
+        closure_exprs, seen, todo = [r.value], set(), list(names(r.value))
+        while todo:
+            v = todo.pop()
+            if v in seen:
+                continue
+            seen.add(v)
+            for e in deps.get(v, []):
+                closure_exprs.append(e)
+                todo += list(names(e))
+        bound = binders(closure_exprs)
+        op_vars = {v for v, src in bound.items() if src == NEW or src in OWN}
+        raw_powers = set()
+        for e in closure_exprs:
+            for x in ast.walk(e):
+                for g in getattr(x, "generators", []):
+                    if norm(g.iter) in TERMS and isinstance(g.target, ast.Tuple) and isinstance(g.target.elts[0], ast.Name):
+                        raw_powers.add(g.target.elts[0].id)
+        for n in own_nodes(f):
+            if isinstance(n, ast.For) and norm(n.iter) in TERMS and isinstance(n.target, ast.Tuple) and isinstance(n.target.elts[0], ast.Name):
+                raw_powers.add(n.target.elts[0].id)
+        lookup = copy = None
+        for e in closure_exprs:
+            for x in ast.walk(e):
+                if isinstance(x, ast.Call) and isinstance(x.func, ast.Attribute) and x.func.attr in ("index", "get") and x.args \
+                        and isinstance(x.args[0], ast.Name) and x.args[0].id in op_vars:
+                    lookup = lookup or x
+                if isinstance(x, ast.Subscript) and isinstance(x.slice, ast.Name) and x.slice.id in op_vars:
+                    lookup = lookup or x
+                if isinstance(x, ast.Compare) and isinstance(x.left, ast.Name) and x.left.id in op_vars \
+                        and isinstance(x.ops[0], (ast.Eq, ast.Is)) and len(x.comparators) == 1 and names(x.comparators[0]) & op_vars:
+                    lookup = lookup or x  # nested scan `if a == b` over both lists
+                if isinstance(x, ast.Starred) and isinstance(x.value, ast.Name) and x.value.id in raw_powers:
+                    copy = copy or x
+                if isinstance(x, ast.BinOp) and isinstance(x.op, ast.Add) and any(
+                        (isinstance(s, ast.Name) and s.id in raw_powers) or
+                        (isinstance(s, ast.Call) and call_name(s) in ("tuple", "list") and s.args and isinstance(s.args[0], ast.Name) and s.args[0].id in raw_powers)
+                        for s in (x.left, x.right)):
+                    copy = copy or x
+        guards, p = [], r
+        while p in parent and parent[p] is not f:
+            p = parent[p]
+            if isinstance(p, (ast.If, ast.While)):
+                guards.append(p.test)
+        guard_reads_new = any(NEW in names(g) or names(g) & tainted for g in guards)
+        where = repo.loc("number_ordered_form", r)
+        inst = f"{CLS}._expand_operators return at line {r.lineno}"
+        if lookup is not None and copy is None:
+            rep.ok(R, inst, f"powers placed by the per-operator lookup `{norm(lookup)[:60]}`", where)
+        elif copy is not None and lookup is None:
+            if guard_reads_new:
+                raise AnalysisError(R, f"{inst}: contiguous copy `{norm(copy)}` under a guard that reads {NEW}; not decided")
+            rep.fail(R, f"{CLS}._expand_operators copies the power tuple contiguously (`{norm(copy)[:60]}`)",
+                     f"no per-operator lookup on this return path and no guard on {NEW}: "
+                     f"a foreign mode sorting between two own modes shifts the powers to the wrong operator "
+                     f"(guards: {[norm(g)[:60] for g in guards] or 'none'})", where)
+        elif norm(r.value) == "self" and guard_reads_new:
+            rep.ok(R, inst, "returns self under a guard on the new operator list", where)
+        else:
+            raise AnalysisError(R, f"{inst}: neither a per-operator lookup nor a contiguous copy recognised "
+                                   f"(lookup={norm(lookup) if lookup else None}, copy={norm(copy) if copy else None})")
+    rep.floor(R, "return paths of _expand_operators", len(returns), 1)
